@@ -133,10 +133,11 @@ func verif_harness_C15_static_midstream() {
 // has to order them. Over every interleaving: each line is handed to exactly
 // one caller, later callers get ErrNoTargets, no data race, no deadlock.
 //
-//verif:harness engine=gobmc param.T=2..3 unwind=32 replay=none queries=cut,bad,race,deadlock bmctimeout=900 maxevents=80
+//verif:harness engine=gobmc param.T=2..3 param.nl=0..2 unwind=32 replay=none queries=cut,bad,race,deadlock bmctimeout=900 maxevents=80
 func verif_harness_C15_json_targeter_concurrent() {
 	T := verif_param("T")
-	lines := []string{`{"method":"GET","url":"http://a/"}` + "\n", `{"method":"GET","url":"http://b/"}` + "\n"}
+	// nl = 0..2 lines, so that several callers meet the end of the input
+	lines := []string{`{"method":"GET","url":"http://a/"}` + "\n", `{"method":"GET","url":"http://b/"}` + "\n"}[:verif_param("nl")]
 	pos := 0
 	verif_shared(&pos, "reader_position")
 	verif_stub("(*bufio.Reader).ReadBytes", func(r *bufio.Reader, delim byte) ([]byte, error) {
@@ -172,8 +173,21 @@ func verif_harness_C15_json_targeter_concurrent() {
 	for w := 0; w < T; w++ {
 		<-done
 	}
-	verif_assert(verif_ghost_add("got_a", 0) == 1 && verif_ghost_add("got_b", 0) == 1, "C15.json.each-target-exactly-once")
-	verif_assert(verif_ghost_add("exhausted", 0) == int64(T-2), "C15.json.exhaustion-reported-to-later-callers")
+	nl := int64(len(lines))
+	want := func(k int64) int64 {
+		if nl > k && int64(T) > k {
+			return 1
+		}
+		return 0
+	}
+	delivered := want(0) + want(1)
+	if int64(T) < nl {
+		// fewer callers than lines: the first T lines are handed out
+		verif_assert(verif_ghost_add("got_a", 0)+verif_ghost_add("got_b", 0) == int64(T), "C15.json.each-target-exactly-once")
+	} else {
+		verif_assert(verif_ghost_add("got_a", 0) == want(0) && verif_ghost_add("got_b", 0) == want(1), "C15.json.each-target-exactly-once")
+	}
+	verif_assert(verif_ghost_add("exhausted", 0) == int64(T)-delivered, "C15.json.exhaustion-reported-to-later-callers")
 }
 
 // C15 (3) — two goroutines draw from one http-format targeter concurrently,
